@@ -25,6 +25,22 @@ from mindsdb_sql.parser.dialects.mindsdb.finetune_predictor import FinetunePredi
 from mindsdb_sql.parser.logger import ParserLogger
 from mindsdb_sql.parser.utils import ensure_select_keyword_order, JoinType, tokens_to_string
 
+def unquote_string_token(value, quote):
+    # decode escapes of a quoted string token and remove the quotes
+    value = value.replace('\\"', '"').replace("\\'", "'")
+    if quote == "'":
+        value = value.replace("''", "'")
+    return value.strip(quote)
+
+
+def variable_token_to_name(value):
+    # remove the sigil and the quotes of a variable token
+    value = value.lstrip('@')
+    if value[0] in ('"', "'", '`'):
+        value = value.strip(value[0])
+    return value
+
+
 all_tokens_list = MindsDBLexer.tokens.copy()
 all_tokens_list.remove('RPAREN')
 all_tokens_list.remove('LPAREN')
@@ -1862,11 +1878,11 @@ class MindsDBParser(Parser):
 
     @_('QUOTE_STRING')
     def quote_string(self, p):
-        return p[0].strip('\'')
+        return unquote_string_token(p[0], '\'')
 
     @_('DQUOTE_STRING')
     def dquote_string(self, p):
-        return p[0].strip('\"')
+        return unquote_string_token(p[0], '"')
 
     # for raw query
 
@@ -1892,11 +1908,11 @@ class MindsDBParser(Parser):
 
     @_('SYSTEM_VARIABLE')
     def variable(self, p):
-        return Variable(value=p.SYSTEM_VARIABLE, is_system_var=True)
+        return Variable(value=variable_token_to_name(p.SYSTEM_VARIABLE), is_system_var=True)
 
     @_('VARIABLE')
     def variable(self, p):
-        return Variable(value=p.VARIABLE)
+        return Variable(value=variable_token_to_name(p.VARIABLE))
 
     @_(
         'OR REPLACE',
